@@ -133,6 +133,7 @@ MUTANTS = [
     ("c17-current-channel-not-special", "internal/pkg/midi/device/open_rgb.go", "\t\t\t\tledArray[id] = d.config.OpenRGB.Colors.ActiveExternal", "\t\t\t\tledArray[id] = channelColors[d.channel]", ["C17"]),
     ("c17-led0-fallback", "internal/pkg/midi/device/open_rgb.go", "\t\tid, ok := indexMap[code]\n\t\tif !ok {\n\t\t\treturn\n\t\t}\n\t\tledArray[id] = color", "\t\tid := indexMap[code]\n\t\tledArray[id] = color", ["C17"]),
     ("c17-semitone-not-in-offset", "internal/pkg/midi/device/open_rgb.go", "\t\toffset := int(d.semitone) + int(d.octave)*12", "\t\toffset := int(d.octave) * 12", ["C17"]),
+    ("c14-repeat-not-filtered", EVS, "\tif event.Event.Type == evdev.EV_KEY && event.Event.Value == EV_KEY_REPEAT {\n\t\treturn\n\t}\n", "", ["C14"]),
     ("c14-check-before-insert", EVS,
      "\t\td.keyTracker[ie.Event.Code] = struct{}{}\n\t\tok := d.checkExitSequence()", "\t\tok := d.checkExitSequence()\n\t\td.keyTracker[ie.Event.Code] = struct{}{}", ["C14"]),
     ("c14-not-swallowed", EVS, "\t\t\t// this simple hack prevents from hanging\n\t\t\treturn", "\t\t\t// this simple hack prevents from hanging", ["C14"]),
